@@ -203,3 +203,19 @@ reg("C25", "exploration", "E1",
     "equal the reference reader's, and for two value assignments (all fields set / only mandatory) the argv recorded at the execute "
     "seam must be executable + token contributions in template order.",
     "Reference vt/ref/template.py written from the shell.define docstring and tutorial; ill-typed defaults such as <n=3> for a file may be refused.")
+
+reg("C35", "fault_enumeration", "E5b+E2",
+    "exhaustive single-fault injection on the job run path (hooks, body, output collection, k-th messenger send, k-th file-system operation) + enumerated submission histories",
+    "Jobs {python ok, python raising, shell} with logging hooks, audit off and PROV, fresh and rerun-over-existing: every fault of "
+    "the alphabet at every position (each hook, body, output collection, every k-th messenger send, every k-th audited file-system "
+    "or chdir event under the cache root); plus every history of <=4 (6) cached/uncached/rerun submissions. After each submission: "
+    "cwd unchanged, no *_info.json left, populated job directories hold _job.pklz and _result.pklz, pre/post_run_task exactly once "
+    "per body execution and never on a cache hit; a postcondition is waived only for a fault that hits its own primitive.",
+    "A file-system fault is an OSError raised before the operation takes effect; one fault per run; unlinking *.lock files is outside the alphabet.")
+reg("C36", "fault_enumeration", "E1+E5b",
+    "exhaustive enumeration of a task pool x audit flags x {fresh, cached, rerun}; raw message files against the executed-job log",
+    "14 pool entries (python/shell ok and failing, output-collection failures, workflows, nested workflows, parallel nodes, split task, "
+    "two tasks through one submitter) x {PROV, ALL} x {fresh, again, rerun} with the FileMessenger: exactly one activity per executed "
+    "job with one start and one end record for the same @id, errored flags equal to the job results, no end record for an unknown "
+    "activity, nothing emitted on a pure cache hit.",
+    "Raw .jsonld files are read (no pyld / network); the executed-job table is cross-checked against the body log, mismatching cases are skipped and listed.")
